@@ -205,7 +205,7 @@ type Engine struct {
 	joinFailWhy map[string]int
 	Params      map[string]int64
 	KnownOpen   map[string]bool // names of signatures that are listed, open known findings
-	MapOrders   string          // "insertion" | "all" (every order for <= 3 entries, insertion+reverse beyond)
+	MapOrders   string          // "insertion" | "all" (every order for <= 3 entries, insertion+reverse beyond) | "all4" (<= 4 entries)
 	Witnesses   []Witness
 	ufApps      map[string]*Term // every uninterpreted application built, by its printed form
 	OvfChecks   int
@@ -968,6 +968,9 @@ func (e *Engine) feasible(st *State, c *Term) (bool, bool) {
 		return true, true
 	}
 	// the path condition is satisfiable (invariant of every live state), so if one side is infeasible the other is feasible
+	if qsitesOn && len(st.frames) > 0 {
+		qsites["fn:"+st.top().fn.String()]++
+	}
 	t := e.S.Check(st.pc, c) != Unsat
 	e.S.EndModel()
 	if !t {
@@ -1804,9 +1807,13 @@ func (e *Engine) rangeOp(st *State, fr *Frame, in *ssa.Range) Value {
 			}
 			return it
 		}
-		if e.MapOrders == "all" && len(idx) >= 2 && !e.InitMode {
+		if (e.MapOrders == "all" || e.MapOrders == "all4") && len(idx) >= 2 && !e.InitMode {
 			var orders [][]int
-			if len(idx) <= 3 {
+			maxAll := 3
+			if e.MapOrders == "all4" { // every order for <= 4 entries (24 orders), for jobs that can afford it
+				maxAll = 4
+			}
+			if len(idx) <= maxAll {
 				var perm func(pre, rest []int)
 				perm = func(pre, rest []int) {
 					if len(rest) == 0 {
